@@ -206,6 +206,12 @@ func credentialIsSecure(credential string) error {
 		return fmt.Errorf("cannot parse credential: jws.ParseString: %w", err)
 	}
 
+	// A message in the JSON serialization can carry several signatures and is verified as soon as any one of them
+	// verifies: the checks below would then say nothing about the signature that was not the one verified.
+	if len(message.Signatures()) > 1 {
+		return fmt.Errorf("credential has more than one signature")
+	}
+
 	// Inspect the signatures in the message
 	secureSignatureCount := 0
 	for _, signature := range message.Signatures() {
